@@ -18,7 +18,7 @@ EXPLANATION = (
     "one; J3 each yield carries the selected terms and the conjunction of the selected nodes AND the negated unselected nodes; J4 both consumers "
     "(_builtin_findall_base, _builtin_all) conjoin exactly that tuple with target.add_and, drop a combination only when the conjunction is false "
     "(None), build the list from the selected terms in order, and report it with that node; all/3 additionally skips the empty list unless "
-    "allow_none is set, and all_or_none sets it."
+    "allow_none is set (every reporting path of all/3 has established a non-empty list or allow_none), and all_or_none sets it."
 )
 TECHNIQUE = "static analysis: finite-domain evaluation of the selection conditions (constant folding under scenarios), enumeration-shape and consumer wiring rules"
 LEVEL_TEXT = EXPLANATION
@@ -222,6 +222,11 @@ def rule_j4(repo, col):
             if not outs:
                 raise AnalysisError("%s: a feasible path reports nothing (conditions %s)" % (fname, sorted(cd)))
             n_out += 1
+            if fname == "_builtin_all":
+                col.decide("J4", m, lp, cd.get(lv) is True or cd.get("allow_none") is True, "all/3 reports a list only when it is non-empty (or allow_none)",
+                           "all/3 can report the empty list: a combination is reported on a path that established neither a non-empty list nor allow_none (conditions %s); "
+                           "the worlds in which the goal has no solution must make all/3 fail" % sorted((k, v) for k, v in cd.items() if not k.startswith("target.add_and")),
+                           construct="_builtin_all: empty list guard (%s)" % ", ".join("%s=%s" % kv for kv in sorted(cd.items()) if not kv[0].startswith("target.add_and")), function=fname)
             o = outs[0][0]
             # ((pattern, goal, <list>), node)
             oko = o.endswith(", %s)" % nodeexpr) and ("build_list(%s, Term('[]'))" % lv) in o
